@@ -248,6 +248,13 @@ def true_values(cfg):
     return Z1 ** d, mean
 
 
+def true_variance(cfg):
+    from scipy.stats import truncnorm
+
+    c, w, h = cfg["like_center"], cfg["like_width"], cfg["half"]
+    return float(truncnorm.var((-h - c) / w, (h - c) / w, loc=c, scale=w))
+
+
 def check_replicates(chk, r, quick):
     base_seed = int(r.integers(1, 10 ** 6))
     R = 20 if quick else 64
@@ -277,17 +284,35 @@ def check_replicates(chk, r, quick):
                 configs.append((tname, "minipcn_smc", f"logit/min_step={ms}", preconds[1][1], {**tc, "min_step": ms}))
             # the estimate of a run must not depend on what the sampler OBJECT did before: second fresh run on the same object
             configs.append((tname, "minipcn_smc", "none/second-run=1", None, {**tc, "second_run": True}))
+            # ... nor on whether the run was interrupted on the way: every replicate dies inside the kernel of a middle iteration and is
+            # finished from the checkpoint the dying run left behind (bytes), or is rewound to the FIRST in-memory checkpoint
+            # dictionary a callback kept, after the sampler that produced it had gone on for several iterations
+            configs.append((tname, "minipcn_smc", "none/interrupted=resumed-from-last", None, {**tc, "interrupted": "last"}))
+            configs.append((tname, "minipcn_smc", "logit/interrupted=rewound-to-first-dict", preconds[1][1], {**tc, "interrupted": "first-dict"}))
     if quick:
         configs = [c for i, c in enumerate(configs) if i % 2 == 0 or c[2] in ("logit",) or "=" in c[2]]
     summary = []
     for tname, sampler, pname, pc, tc in configs:
         cfg0 = {"sampler": sampler, "n_samples": 400 if sampler == "importance" else 64, "kernel_steps": 6, "precond": pc, **tc}
         Z, mu = true_values(cfg0)
-        ratios, means = [], []
+        ratios, means, variances = [], [], []
         failed = None
         for k in range(R):
             cfg = {**cfg0, "seed": base_seed + 1009 * k}
-            if cfg.pop("second_run", False):
+            how = cfg.pop("interrupted", None)
+            if how is not None:
+                cfg["checkpoint_every"] = 1
+                cfg.pop("second_run", None)
+                probe = smcrun.run_smc(cfg)
+                res = probe
+                if probe["status"] == "done" and probe["target"].n_like >= 4:
+                    k_f = (probe["target"].n_like * (2 if how == "last" else 3)) // 4
+                    r1 = smcrun.run_smc(cfg, fault_at=k_f, record_checkpoints=True)
+                    if r1["status"] == "fault" and r1["ckpts"]:
+                        src = r1["ckpts"][-1]["bytes"] if how == "last" else r1["ckpts"][0]["state"]
+                        res = smcrun.resume_smc(cfg, src)
+                        chk.count("replicates:interrupted_and_resumed")
+            elif cfg.pop("second_run", False):
                 first = smcrun.run_smc({**cfg, "seed": cfg["seed"] + 500_000})
                 res = smcrun.run_smc(cfg, reuse=first) if first["status"] == "done" else first
             else:
@@ -300,8 +325,10 @@ def check_replicates(chk, r, quick):
             x = ns.to_np(s.x)[:, 0]
             if sampler == "importance":
                 wts = ns.to_np(s.weights); means.append(float(np.sum(wts * x) / np.sum(wts)))
+                variances.append(float(np.sum(wts * (x - means[-1]) ** 2) / np.sum(wts)))
             else:
                 means.append(float(np.mean(x)))
+                variances.append(float(np.var(x)))
         case = {"level": "replicates", "target": tname, "sampler": sampler, "preconditioning": pname, "replicates": R, "base_seed": base_seed}
         chk.count(f"replicates:{sampler}/{pname}")
         chk.case(None, json.dumps(case))
@@ -325,6 +352,16 @@ def check_replicates(chk, r, quick):
         if abs(means.mean() - mu) > 6 * sem + 0.05 * cfg0["like_width"]:
             chk.fail("replicate-averaged posterior mean inside calibrated bounds (exploration)", case,
                      f"posterior mean {means.mean():.4f} +- {sem:.4f}, true {mu:.4f}", {"level": "replicates", "clause": "mean", "sampler": sampler, "preconditioning": pname})
+        # second moment: the replicate-averaged (weighted) variance of the first coordinate against the closed-form variance.  The
+        # allowance covers what is NOT a defect: the 1/N bias of a sample variance, duplicated particles after resampling with a
+        # kernel of a few steps, self-normalisation of importance weights
+        var_true = true_variance(cfg0)
+        variances = np.asarray(variances)
+        sev = float(np.std(variances, ddof=1)) / math.sqrt(R)
+        summary[-1].update(posterior_variance=round(float(variances.mean()), 5), true_variance=round(var_true, 5))
+        if abs(variances.mean() - var_true) > 6 * sev + 0.35 * var_true:
+            chk.fail("replicate-averaged posterior variance inside calibrated bounds (exploration)", case,
+                     f"posterior variance {variances.mean():.5f} +- {sev:.5f}, true {var_true:.5f}", {"level": "replicates", "clause": "variance", "sampler": sampler, "preconditioning": pname})
     chk.extra["replicate_summary"] = summary
 
 
